@@ -286,3 +286,114 @@ Proof.
   - intros R m k f g HR Hin Hg. apply (select_via_multi_is_scan R (tct st) (trows st) m k f g); [assumption|apply Hm; assumption|assumption].
   - intros R u k f g HR Hin Hg. apply (select_via_unique_is_scan R (tct st) (trows st) u k f g); [assumption|apply Hu; assumption|assumption].
 Qed.
+
+(* ---------------------------------------------------------------- Remove / Extract: the failure case *)
+
+(* DataIndexes::RemoveRaw can only throw from its Prepare phase, which consists of lookups (HashSet::Find /
+   HashMultiMap::Find and, after 4f7b624 / 2211fdb, a scan): no step allocates, so with std::bad_alloc as the only
+   failure it cannot fail at all.  The model nevertheless lets the phase throw (fl = Some _): then the catch block
+   only clears the remembered positions, and the index state is EXACTLY what it was. *)
+Lemma remove_raw_failure_identity R ct k s raw :
+  wf s -> fst (remove_raw true true R ct (Some k) s raw) = mkI (uhs s) (mhs s) (ntag s + tags_used s) /\
+          snd (remove_raw true true R ct (Some k) s raw) = Thrown.
+Proof.
+  intros [Hu Hm]. unfold remove_raw, finish. cbn [fst snd]. split; [|reflexivity]. f_equal.
+  - apply (map_id_clean u_reject_remove uclean).
+    + intros u [Ha Hr]. unfold u_reject_remove. destruct u; simpl in *; subst; reflexivity.
+    + eapply Forall_impl; [|exact Hu]. intros a [H _]. exact H.
+  - apply (map_id_clean m_reject_remove mclean).
+    + intros m [_ Hr]. apply m_reject_remove_clean. exact Hr.
+    + eapply Forall_impl; [|exact Hm]. intros a [H _]. exact H.
+Qed.
+
+Theorem t_remove_failure_unchanged R f st n keep_order :
+  tgood st -> snd (t_remove R f st n keep_order) <> TOk -> unchanged st (fst (t_remove R f st n keep_order)).
+Proof.
+  intros Hg. unfold t_remove. destruct (f_step f) as [k|] eqn:Ef.
+  - destruct (remove_raw_failure_identity R (tct st) k (tidx st) (nth n (trows st) 0%Z) (good_wf _ _ _ Hg)) as [E1 E2].
+    destruct (remove_raw true true R (tct st) (Some k) (tidx st) (nth n (trows st) 0%Z)) as [s' o]. cbn [fst snd] in *. subst.
+    intros _. unfold unchanged. cbn [trows tidx tct uhs mhs]. repeat split; auto. apply Forall2_refl_l. apply meq_refl.
+  - unfold remove_raw, finish. cbn [fst snd of_outcome]. intros H. contradiction.
+Qed.
+
+(* ---------------------------------------------------------------- row numbers (Settings::keepRowNumber) *)
+
+(* which pvSetNumber / pvSetNumbers(beginNumber) calls each table operation makes (DataTable.h:1094-1354), as a
+   transformation of the list of numbers stored in the rows, in table order; nothing is written when the operation
+   is refused or throws.  Independent of the column-list flavour (static / dynamic): the number lives in the raw. *)
+From C07 Require Import NumModel.
+
+Definition num_insert (n len : nat) (r : tresult) (nums : list nat) : list nat :=
+  match r with TOk => set_nums n (insert_at n len nums) | _ => nums end.      (* pvSetNumber(raw, count); rotate; pvSetNumbers(n) *)
+Definition num_update_row (n : nat) (r : tresult) (nums : list nat) : list nat :=
+  match r with TOk => set_nth n n nums | _ => nums end.                       (* pvSetNumber(newRaw, rowNumber) *)
+Definition num_remove (n : nat) (keep_order : bool) (r : tresult) (nums : list nat) : list nat :=
+  match r with
+  | TOk => if keep_order then set_nums n (remove_nth n nums)                   (* mRaws.Remove(n); pvSetNumbers(n) *)
+           else let l := remove_unordered n nums in if Nat.ltb n (length l) then set_nth n n l else l
+  | _ => nums
+  end.
+Definition num_filter (newlen : nat) : list nat := seq 0 newlen.              (* pvFilterRaws; pvSetNumbers() *)
+
+Lemma t_insert_rows ord R f st n raw :
+  let '(st', r) := t_insert ord R f st n raw in
+  (r = TOk /\ trows st' = insert_at n raw (trows st)) \/ (r <> TOk /\ trows st' = trows st).
+Proof.
+  unfold t_insert. destruct (f_reserve f); [right; split; [discriminate|reflexivity]|].
+  destruct (add_raw ord R (tct st) (f_step f) (tidx st) raw) as [s' o]. destruct o; cbn [of_outcome trows];
+    [left; split; reflexivity|right; split; [discriminate|reflexivity]|right; split; [discriminate|reflexivity]].
+Qed.
+Lemma t_update_row_rows ord R f st n new :
+  let '(st', r) := t_update_row ord R f st n new in
+  (r = TOk /\ trows st' = set_nth n new (trows st)) \/ (r <> TOk /\ trows st' = trows st).
+Proof.
+  unfold t_update_row. destruct (update_raw true true ord R (tct st) (f_step f) (tidx st) _ new) as [s' o]. destruct o; cbn [of_outcome trows];
+    [left; split; reflexivity|right; split; [discriminate|reflexivity]|right; split; [discriminate|reflexivity]].
+Qed.
+Lemma t_remove_rows R f st n keep_order :
+  let '(st', r) := t_remove R f st n keep_order in
+  (r = TOk /\ trows st' = if keep_order then remove_nth n (trows st) else remove_unordered n (trows st)) \/ (r <> TOk /\ trows st' = trows st).
+Proof.
+  unfold t_remove. destruct (remove_raw true true R (tct st) (f_step f) (tidx st) _) as [s' o]. destruct o; cbn [of_outcome trows];
+    [left; split; reflexivity|right; split; [discriminate|reflexivity]|right; split; [discriminate|reflexivity]].
+Qed.
+
+(* after every table operation - accepted, refused or interrupted by an allocation failure - the number stored in every
+   row is its position *)
+Theorem table_row_numbers_are_positions :
+  (forall ord R f st n raw nums, nums = seq 0 (length (trows st)) -> n <= length (trows st) ->
+     let '(st', r) := t_insert ord R f st n raw in num_insert n (length (trows st)) r nums = seq 0 (length (trows st'))) /\
+  (forall ord R f st n new nums, nums = seq 0 (length (trows st)) -> n < length (trows st) ->
+     let '(st', r) := t_update_row ord R f st n new in num_update_row n r nums = seq 0 (length (trows st'))) /\
+  (forall ord R f st n c v nums, nums = seq 0 (length (trows st)) ->
+     let '(st', r) := t_update_col ord R f st n c v in nums = seq 0 (length (trows st'))) /\
+  (forall R f st n keep_order nums, nums = seq 0 (length (trows st)) -> n < length (trows st) ->
+     let '(st', r) := t_remove R f st n keep_order in num_remove n keep_order r nums = seq 0 (length (trows st'))) /\
+  (forall st keep, num_filter (length (trows (t_filter st keep))) = seq 0 (length (trows (t_filter st keep)))) /\
+  (forall st, @nil nat = seq 0 (length (trows (t_clear st)))).
+Proof.
+  repeat split.
+  - intros ord R f st n raw nums Hn Hle. pose proof (t_insert_rows ord R f st n raw) as H.
+    destruct (t_insert ord R f st n raw) as [st' r]. destruct H as [[-> E]|[Hr E]].
+    + rewrite E, insert_at_length. subst nums. unfold num_insert. apply set_nums_ok.
+      * rewrite insert_at_length, seq_length. reflexivity.
+      * lia.
+      * rewrite firstn_insert_at by (rewrite seq_length; lia). apply firstn_seq. lia.
+    + rewrite E. unfold num_insert. destruct r; [congruence|exact Hn|exact Hn].
+  - intros ord R f st n new nums Hn Hlt. pose proof (t_update_row_rows ord R f st n new) as H.
+    destruct (t_update_row ord R f st n new) as [st' r]. destruct H as [[-> E]|[Hr E]].
+    + rewrite E, set_nth_length. subst nums. unfold num_update_row. apply set_nth_seq. exact Hlt.
+    + rewrite E. unfold num_update_row. destruct r; [congruence|exact Hn|exact Hn].
+  - intros ord R f st n c v nums Hn. unfold t_update_col.
+    destruct (update_col true true ord R (tct st) (f_step f) (tidx st) _ c v) as [[s' o] ct']. cbn [trows]. exact Hn.
+  - intros R f st n keep_order nums Hn Hlt. pose proof (t_remove_rows R f st n keep_order) as H.
+    destruct (t_remove R f st n keep_order) as [st' r]. destruct H as [[-> E]|[Hr E]].
+    + rewrite E. subst nums. unfold num_remove. destruct keep_order.
+      * rewrite remove_nth_length by exact Hlt. apply set_nums_ok.
+        -- rewrite remove_nth_length, seq_length by (rewrite seq_length; exact Hlt). reflexivity.
+        -- lia.
+        -- rewrite firstn_remove_nth. apply firstn_seq. lia.
+      * pose proof (Permutation_length (remove_unordered_perm (trows st) n Hlt)) as P. rewrite P.
+        rewrite remove_nth_length by exact Hlt. apply unordered_nums. exact Hlt.
+    + rewrite E. unfold num_remove. destruct r; [congruence|exact Hn|exact Hn].
+Qed.
